@@ -27,10 +27,57 @@ _COL = [
     "strictly_increasing(count_indices)",
     "forall(0, len(count_indices), lambda k: 0 <= count_indices[k] and count_indices[k] < len(baseline_probabilities))",
 ]
+# Functional contract, taken from the property statement (C17): the weight of a column is the Kullback-Leibler sum over ALL rows r of
+#   P(r) * log(P(r) / baseline[r])   (0 where P(r) == 0),   P(r) = (CNT[r] + prior_strength * baseline[r]) / (column total + prior_strength)
+# where CNT is the *dense* column (ghost): CNT[count_indices[k]] == count_data[k], 0 at rows that are not stored.  The definition does not
+# mention the storage at all, so a stored explicit zero and an absent row must give the same term - the kernel's two branches (stored: the
+# formula itself; absent: baseline[r] * (ps/norm) * log(ps/norm)) are proved equal to it, over the reals with log uninterpreted.
+MACROS = {
+    "KLNORM": ([], "(psum(count_data, len(count_data)) + prior_strength)"),
+    "KLP": (["r"], "((CNT[r] + prior_strength * baseline_probabilities[r]) / KLNORM())"),
+}
+_KL_GHOST = [
+    "prior_strength > 0",
+    "forall(0, len(baseline_probabilities), lambda r: baseline_probabilities[r] >= 0)",
+    "forall(0, len(count_data), lambda k: count_data[k] >= 0)",
+    "len(CNT) == len(baseline_probabilities) and len(TERM) == len(baseline_probabilities)",
+    "forall(0, len(count_indices), lambda k: CNT[count_indices[k]] == count_data[k])",
+    "forall(0, len(baseline_probabilities), lambda r: implies(not member(r, count_indices), CNT[r] == 0))",
+    "forall(0, len(baseline_probabilities), lambda r: TERM[r] == ite(KLP(r) > 0, KLP(r) * np.log(KLP(r) / baseline_probabilities[r]), 0))",
+]
 CONTRACTS[I + "column_kl_divergence_exact_prior"] = dict(
     params=dict(count_indices="int[]", count_data="real[]", baseline_probabilities="real[]", prior_strength="real", target="int[]"),
-    requires=_COL, returns="real", ensures=["unchanged(count_data) and unchanged(count_indices)"],
-    loops={"for#1": dict(invariant=["True"])},
+    ghost_params={"CNT": "real[]", "TERM": "real[]"},
+    requires=_COL + _KL_GHOST, returns="real",
+    ensures=["unchanged(count_data) and unchanged(count_indices)"],
+    ensures_ghost=["result == psum(TERM, len(baseline_probabilities))"],
+    ghost_after=[
+        # the normaliser is positive: the column total is a sum of non-negative counts (prefix-sum lemma) and the prior strength is positive
+        ("@assign:observed_norm", 1,
+         "lemma(psum_bound(count_data, 0, len(count_data)), len(count_data) > 0)\n"
+         "by(observed_norm == KLNORM() and observed_norm > 0, observed_norm == psum(count_data, len(count_data)) + prior_strength, prior_strength > 0, "
+         "psum(count_data, 0) == 0, implies(len(count_data) <= 0, psum(count_data, len(count_data)) == 0), "
+         "implies(len(count_data) > 0, count_data[0] >= 0 and psum(count_data, 0) + count_data[0] <= psum(count_data, len(count_data))))"),
+        # stored row: the kernel's observed probability is the definition's P(i) (the stored value IS the dense column's entry)
+        ("@augassign:result", 1,
+         "by(observed_probability == KLP(i), CNT[i] == count_data[idx], observed_norm == KLNORM(), "
+         "observed_probability == (count_data[idx] + prior_strength * baseline_probabilities[i]) / observed_norm)\n"
+         "by(TERM[i] == observed_probability * np.log(observed_probability / baseline_probabilities[i]), observed_probability == KLP(i), observed_probability > 0, "
+         "TERM[i] == ite(KLP(i) > 0, KLP(i) * np.log(KLP(i) / baseline_probabilities[i]), 0))"),
+        # absent row: (0 + ps*b)/norm == b*(ps/norm), and its ratio to b is ps/norm whenever b > 0 (non-linear: proved in isolation)
+        ("@augassign:result", 2,
+         "by(KLP(i) == baseline_probabilities[i] * (prior_strength / KLNORM()) and implies(baseline_probabilities[i] > 0, KLP(i) / baseline_probabilities[i] == prior_strength / KLNORM()) "
+         "and prior_strength / KLNORM() > 0, "
+         "KLNORM() > 0, prior_strength > 0, baseline_probabilities[i] >= 0, CNT[i] == 0)\n"
+         # ... hence the definition's term is the kernel's  baseline[i] * (ps/norm) * log(ps/norm)  (0 == 0 when baseline[i] == 0)
+         "by(TERM[i] == baseline_probabilities[i] * observed_zero_constant, "
+         "KLP(i) == baseline_probabilities[i] * (prior_strength / KLNORM()), implies(baseline_probabilities[i] > 0, KLP(i) / baseline_probabilities[i] == prior_strength / KLNORM()), "
+         "prior_strength / KLNORM() > 0, baseline_probabilities[i] >= 0, "
+         "TERM[i] == ite(KLP(i) > 0, KLP(i) * np.log(KLP(i) / baseline_probabilities[i]), 0), "
+         "observed_zero_constant == (prior_strength / KLNORM()) * np.log(prior_strength / KLNORM()))"),
+    ],
+    loops={"for#1": dict(invariant=["result == psum(TERM, i)", "observed_norm == KLNORM() and observed_norm > 0",
+                                    "observed_zero_constant == (prior_strength / observed_norm) * np.log(prior_strength / observed_norm)"])},
 )
 CONTRACTS[I + "column_kl_divergence_approx_prior"] = dict(
     params=dict(count_indices="int[]", count_data="real[]", baseline_probabilities="real[]", prior_strength="real", target="int[]"),
